@@ -4,6 +4,7 @@ modifies        regions the function may write (prefix match); everything else m
 outputs         regions that hold the function's results (for aliasing clauses); "return" is implicit
 independent_of  regions whose objects must not be stored (by reference) into the outputs; a trailing "!" = that exact object only
 deterministic   the returned value must not depend on the iteration order of a set
+independent_of_mutable  as independent_of for that exact object, but only on paths where a type test says it is a list / array / dict / set
 order_free      fields whose order is documented as free (RegRefTransform.regrefs / func share one enumeration)
 """
 P = "blackbird_python/blackbird/"
@@ -18,7 +19,7 @@ FRAMES = {
     "_value_to_blackbird": {"module": P + "program.py", "qual": "_value_to_blackbird", "params": ["v", "tdm"], "modifies": [], "deterministic": True,
                             "props": ["C13", "C19", "C01", "C09"], "families": ["hashseed", "roundtrip"]},
     "_bind_parameters": {"module": P + "program.py", "qual": "_bind_parameters", "params": ["v", "values"], "modifies": [], "deterministic": True,
-                         "props": ["C13", "C19", "C04"], "families": ["hashseed", "template_subst"]},
+                         "independent_of_mutable": ["param.v"], "props": ["C13", "C19", "C04"], "families": ["hashseed", "template_subst"]},
     "numpy_to_blackbird": {"module": P + "program.py", "qual": "numpy_to_blackbird", "params": ["A", "var_name"], "modifies": [], "deterministic": True,
                            "props": ["C13", "C19"], "families": ["readonly_ops"]},
     "parameters": {"module": P + "program.py", "qual": "BlackbirdProgram.parameters", "params": ["self"], "modifies": [], "props": ["C13", "C19"],
